@@ -5,6 +5,7 @@ package valrig
 import (
 	"context"
 	"fmt"
+	pubsub "github.com/libp2p/go-libp2p-pubsub"
 	"sort"
 
 	"github.com/ethereum/go-ethereum/crypto"
@@ -48,9 +49,22 @@ func (r *runner) round(ctx context.Context, rnd *hx.Rand, round int) error {
 	}
 	fx := noderig.NewFixture(rnd, n, t)
 	max := uint64(3)
+	// identity shapes move with the round: random 32-byte strings; 32-byte strings that agree in their first two and
+	// last two bytes (what the log abbreviation of an identity shows); short strings of different lengths, some with
+	// leading zero bytes (ordered as byte strings, not as numbers)
 	ids := [][]byte{rnd.Bytes(32), rnd.Bytes(32), rnd.Bytes(32)}
-	sort.Slice(ids, func(i, j int) bool { return string(ids[i]) < string(ids[j]) })
 	otherID := rnd.Bytes(32)
+	switch round % 3 {
+	case 1:
+		pre, suf := rnd.Bytes(2), rnd.Bytes(2)
+		mk := func() []byte { return append(append(append([]byte{}, pre...), rnd.Bytes(28)...), suf...) }
+		ids, otherID = [][]byte{mk(), mk(), mk()}, mk()
+	case 2:
+		ids = [][]byte{{0x00, 0x05, byte(rnd.Intn(256))}, {0x01, 0x00}, {0x02}}
+		otherID = []byte{0x01, 0x7f}
+	}
+	r.res.Count(fmt.Sprintf("identity-shape:%d", round%3))
+	sort.Slice(ids, func(i, j int) bool { return string(ids[i]) < string(ids[j]) })
 	// the receiver's position in the keyper set moves with the round (position 0 first)
 	receiver := round % n
 	sender := (receiver + 1) % n
@@ -91,6 +105,17 @@ func (r *runner) round(ctx context.Context, rnd *hx.Rand, round int) error {
 	agg := prod[n-1]
 	for i := 0; i < n-1 && keysMsg == nil; i++ {
 		d := agg.DeliverMsg(ctx, shareMsgs[i])
+		if d.Validation != pubsub.ValidationAccept || d.Panic != "" || d.HandleErr != nil {
+			// a key-shares message straight from the real producer, delivered to another keyper of the same set
+			b, _ := p2pmsg.Marshal(shareMsgs[i], nil)
+			ids2 := []string{}
+			for _, x := range ids[:2] {
+				ids2 = append(ids2, fmt.Sprintf("%x", x))
+			}
+			r.violate("spec", "valid-rejected", fmt.Sprintf("the key-shares message produced by keyper %d for identities %v (non-decreasing as byte strings) is not accepted and handled by keyper %d of the same set: validation=%d panic=%q error=%v", i, ids2, n-1, d.Validation, d.Panic, d.HandleErr), nil,
+				map[string]interface{}{"envelope_hex": fmt.Sprintf("%x", b), "scenario": fmt.Sprintf("fixture n=%d t=%d, producer %d, receiver %d (core flavour)", n, t, i, n-1)})
+			return nil
+		}
 		for _, o := range d.Out {
 			if k, ok := o.(*p2pmsg.DecryptionKeys); ok {
 				keysMsg = k
